@@ -658,7 +658,14 @@ class LSMTree(Entity):
             for sst in overlapping:
                 if sst in self._levels[target_level]:
                     self._levels[target_level].remove(sst)
-            self._levels[target_level].append(new_sst)
+            if target_level == source_level:
+                # In-place merge of the deepest level (L0 itself when
+                # max_levels == 1): tables installed into this level during
+                # the write latency above are newer than the merged data and
+                # must stay behind it in the newest-last read order.
+                self._levels[target_level].insert(0, new_sst)
+            else:
+                self._levels[target_level].append(new_sst)
 
         self._total_compactions += 1
         logger.debug(
